@@ -47,6 +47,9 @@ type vCaseC21 struct {
 	Pool   []vBlobC21 `json:"pool"`
 	Files  []vFileC21 `json:"files"`
 	Sparse bool       `json:"sparse"`
+	// Overwrite behaviour of the restorer whose VerifyFiles is judged (restoring into a fresh
+	// directory all four behave alike; what they must not do is influence the verification)
+	Overwrite int `json:"overwrite"`
 	Mask   byte       `json:"mask"`
 }
 
@@ -63,7 +66,7 @@ func (b vBlobC21) bytes() []byte {
 }
 
 func genCaseC21(t *rapid.T, big bool) *vCaseC21 {
-	c := &vCaseC21{Sparse: rapid.Bool().Draw(t, "sparse"), Mask: byte(rapid.SampledFrom([]int{1, 0x80, 0xff, 0x20, 0x55}).Draw(t, "mask"))}
+	c := &vCaseC21{Sparse: rapid.Bool().Draw(t, "sparse"), Overwrite: rapid.IntRange(0, 3).Draw(t, "overwrite"), Mask: byte(rapid.SampledFrom([]int{1, 0x80, 0xff, 0x20, 0x55}).Draw(t, "mask"))}
 	np := rapid.IntRange(1, 5).Draw(t, "npool")
 	for i := 0; i < np; i++ {
 		l := rapid.SampledFrom([]int{1, 1, 2, 3, 16, 31, 64, 100}).Draw(t, "bloblen")
@@ -303,6 +306,11 @@ type tamperC21 struct {
 	Pos  int    `json:"pos"`
 }
 
+// restoredMtimeNsC21 is the mtime (ns) the restore gave the file currently being tampered with, for
+// "flip-keep-mtime"; earlier tampers of the same file and their undo change the current mtime, so it
+// has to be remembered (cases run sequentially inside one process).
+var restoredMtimeNsC21 int64
+
 func (tm tamperC21) differs() bool {
 	switch tm.Kind {
 	case "chmod", "mtime", "rewrite-same", "none":
@@ -334,6 +342,20 @@ func (tm tamperC21) apply(path string, orig []byte, mask byte, aside string) (fu
 		mod := append([]byte(nil), orig...)
 		mod[tm.Pos] ^= mask
 		return rewrite, os.WriteFile(path, mod, 0o644)
+	case "flip-keep-mtime": // bit rot: one byte differs, size and mtime are as restored
+		mt := time.Unix(0, restoredMtimeNsC21)
+		mod := append([]byte(nil), orig...)
+		mod[tm.Pos] ^= mask
+		if err := os.WriteFile(path, mod, 0o644); err != nil {
+			return rewrite, err
+		}
+		undo := func() error {
+			if err := rewrite(); err != nil {
+				return err
+			}
+			return os.Chtimes(path, mt, mt)
+		}
+		return undo, os.Chtimes(path, mt, mt)
 	case "truncate":
 		return rewrite, os.Truncate(path, int64(tm.Pos))
 	case "extend-zero":
@@ -396,6 +418,11 @@ func tampersC21(blobLens []int, exhaustive bool) []tamperC21 {
 	if len(blobLens) > 0 {
 		tms = append(tms, tamperC21{"extend-data", blobLens[len(blobLens)-1]}, tamperC21{"extend-zero", blobLens[0]})
 	}
+	if size > 0 { // bit rot at the first, a middle and the last byte
+		for _, p := range []int{0, size / 2, size - 1} {
+			tms = append(tms, tamperC21{"flip-keep-mtime", p})
+		}
+	}
 	if len(blobLens) > 1 { // exchange the first blob with the rest: every blob still "belongs" to the file
 		tms = append(tms, tamperC21{"swap-halves", blobLens[0]})
 	}
@@ -425,7 +452,8 @@ func runCaseC21(outer testing.TB, st *verifkit.Stats, c *vCaseC21, exhaustive bo
 	dst := filepath.Join(top, "dst")
 	aside := filepath.Join(top, "aside")
 
-	res := NewRestorer(repo, &data.Snapshot{Tree: &root}, Options{Sparse: c.Sparse})
+	res := NewRestorer(repo, &data.Snapshot{Tree: &root}, Options{Sparse: c.Sparse, Overwrite: OverwriteBehavior(c.Overwrite)})
+	st.Class(fmt.Sprintf("overwrite=%d", c.Overwrite))
 	res.Warn = func(string) {}
 	res.Info = func(string) {}
 	count, err := res.RestoreTo(ctx, dst)
@@ -484,7 +512,12 @@ func runCaseC21(outer testing.TB, st *verifkit.Stats, c *vCaseC21, exhaustive bo
 			lens = append(lens, c.Pool[b].Len)
 		}
 		classes = append(classes, fmt.Sprintf("blobs=%d", min(len(lens), 3)))
+		var restoredMtimeNs int64
+		if fi, err := os.Lstat(path); err == nil {
+			restoredMtimeNs = fi.ModTime().UnixNano()
+		}
 		for _, tm := range tampersC21(lens, exhaustive && (len(orig) <= verifkit.Scale(96, 1<<20))) {
+			restoredMtimeNsC21 = restoredMtimeNs
 			if tm.Kind == "swap-halves" && string(orig[tm.Pos:])+string(orig[:tm.Pos]) == string(orig) {
 				continue // e.g. the same blob twice: nothing changes
 			}
